@@ -173,6 +173,12 @@ impl Prop for Totality {
         let (mut game, shape) = gen::game_with(r, &shapes, 0, |s| {
             s.integer_payoffs = integer;
         });
+        // extreme but finite payoff magnitudes (products with probabilities stay finite)
+        let mut scale = 1.0;
+        if r.coin(0.12) {
+            scale = *r.pick(&[1e-300, 1e-100, 1e-30, 1e-8, 1e8, 1e30, 1e100, 1e250]);
+            game = game.map_payoffs(&mut |x| x * scale);
+        }
         let mut edge = "none";
         let force_edge = std::env::var("VERIF_C05_FORCE_EDGE").is_ok();
         if r.coin(0.08) || force_edge {
@@ -228,7 +234,7 @@ impl Prop for Totality {
             fail_build,
             buggify: r.coin(0.8),
             sched: SchedSpec::swarm(r),
-            extra: json!({"edge": edge}),
+            extra: json!({"edge": edge, "payoff_scale": scale}),
         }
     }
 
@@ -296,6 +302,7 @@ impl Prop for Totality {
         m.add("fault_worker_starved_pct_schedule", matches!(case.sched.policy, crate::sched::Policy::Pct { .. }) as u64);
         m.add("probe_zero_iterations", (case.t == 0) as u64);
         m.add("probe_nan_threshold", case.thresh.is_nan() as u64);
+        m.add("probe_extreme_payoff_scale", (case.extra["payoff_scale"].as_f64().unwrap_or(1.0) != 1.0) as u64);
         if a.rayon.build_failures_injected + a.rayon.build_failures_too_many + a.seam.stats.cores_unknown_fired + a.seam.stats.cores_override_fired > 0
             || (a.rayon.max_workers >= 2 && sim.sched.preemptions >= 1)
         {
